@@ -662,10 +662,36 @@ func decayer(g *fleetGen) {
 	})
 }
 
+// hugeAdder: after some ordinary traffic a weight of 2^53 or more arrives (a pre-aggregated
+// count, a re-weighted import); the sketch is then re-weighted a few times and finally cleared.
+func hugeAdder(g *fleetGen) {
+	r := g.r
+	if !r.Pct(25) {
+		return
+	}
+	n := g.nodes[r.Intn(len(g.nodes))]
+	g.q.After(int64(r.Range(0, 6000)), func() {
+		for k := r.Range(0, 4); k > 0; k-- {
+			g.emit(engine.Event{Ev: "add", N: n.id, V: engine.F64(g.value(n))})
+			n.n++
+		}
+		w := math.Ldexp(float64(r.Range(1, 7)), r.Range(53, 62))
+		g.emit(engine.Event{Ev: "hugeadd", N: n.id, V: engine.F64(g.value(n)), W: engine.F64(w)})
+		for k := r.Range(1, 3); k > 0; k-- {
+			g.emit(engine.Event{Ev: "reweight", N: n.id, W: engine.F64(math.Ldexp(1, r.Range(-3, 4)))})
+		}
+		g.emit(engine.Event{Ev: "clear", N: n.id})
+		n.n = 0
+	})
+}
+
 func confusedSender(g *fleetGen) {
 	r := g.r
 	if g.prof.prop == "C15" {
 		decayer(g)
+	}
+	if g.prof.prop == "C16" {
+		hugeAdder(g)
 	}
 	var exact, plain *fgNode
 	for _, n := range g.nodes {
